@@ -314,7 +314,7 @@ func (e *envelopeEncryption) loadLatestOrCreateIntermediateKey(ctx context.Conte
 		return nil, err
 	}
 
-	if ikEkr == nil || e.isEnvelopeInvalid(ikEkr) {
+	if ikEkr == nil || ikEkr.ParentKeyMeta == nil || e.isEnvelopeInvalid(ikEkr) {
 		return e.createIntermediateKey(ctx)
 	}
 
@@ -480,6 +480,10 @@ func (e *envelopeEncryption) loadIntermediateKey(ctx context.Context, meta KeyMe
 
 	if ekr == nil {
 		return nil, errors.New("error loading intermediate key from metastore")
+	}
+
+	if ekr.ParentKeyMeta == nil {
+		return nil, errors.New("intermediate key record is missing its parent key meta")
 	}
 
 	sk, err := e.getOrLoadSystemKey(ctx, *ekr.ParentKeyMeta)
